@@ -12,6 +12,7 @@ import (
 	"fmt"
 	"math/rand"
 	"os"
+	"sort"
 	"syscall"
 
 	"github.com/orda-io/orda/client/pkg/model"
@@ -49,6 +50,34 @@ func (t *tagger) tag() int {
 }
 
 func raw(v interface{}) json.RawMessage { b, _ := json.Marshal(v); return b }
+
+// container of a document view: path from the root, kind, number of children / keys present
+type cont struct {
+	path []string
+	arr  bool
+	n    int
+	keys []string
+}
+
+func containers(v interface{}, path []string, out *[]cont) {
+	switch x := v.(type) {
+	case map[string]interface{}:
+		c := cont{path: append([]string{}, path...)}
+		for k := range x {
+			c.keys = append(c.keys, k)
+		}
+		sort.Strings(c.keys)
+		*out = append(*out, c)
+		for _, k := range c.keys {
+			containers(x[k], append(append([]string{}, path...), k), out)
+		}
+	case []interface{}:
+		*out = append(*out, cont{path: append([]string{}, path...), arr: true, n: len(x)})
+		for i, e := range x {
+			containers(e, append(append([]string{}, path...), fmt.Sprint(i)), out)
+		}
+	}
+}
 
 func main() {
 	kind := flag.String("kind", "list", "counter|map|list")
@@ -117,6 +146,52 @@ func main() {
 			}
 			return v
 		}
+		// documents: the view in the specification's value encoding, random values of a few shapes
+		var encView func(v interface{}) interface{}
+		encView = func(v interface{}) interface{} {
+			switch x := v.(type) {
+			case map[string]interface{}:
+				o := map[string]interface{}{}
+				for k, e := range x {
+					o[k] = encView(e)
+				}
+				return map[string]interface{}{"t": "o", "o": o}
+			case []interface{}:
+				a := []interface{}{}
+				for _, e := range x {
+					a = append(a, encView(e))
+				}
+				return map[string]interface{}{"t": "a", "a": a}
+			}
+			if t, ok := back[vals.Str(v)]; ok {
+				return map[string]interface{}{"t": "p", "p": t}
+			}
+			return map[string]interface{}{"t": "p", "p": "unknown:" + vals.Str(v)}
+		}
+		var docVal func(depth int) interface{}
+		docVal = func(depth int) interface{} {
+			prim := func() interface{} {
+				t := tg.tag()
+				back[vals.Str(vals.Canon(t))] = t
+				return map[string]interface{}{"t": "p", "p": t}
+			}
+			if depth >= 2 {
+				return prim()
+			}
+			switch rng.Intn(7) {
+			case 0:
+				return map[string]interface{}{"t": "o", "o": map[string]interface{}{}}
+			case 1:
+				return map[string]interface{}{"t": "o", "o": map[string]interface{}{"x": docVal(depth + 1)}}
+			case 2:
+				return map[string]interface{}{"t": "o", "o": map[string]interface{}{"x": docVal(depth + 1), "y": docVal(depth + 1)}}
+			case 3:
+				return map[string]interface{}{"t": "a", "a": []interface{}{}}
+			case 4:
+				return map[string]interface{}{"t": "a", "a": []interface{}{docVal(depth + 1), docVal(depth + 1)}}
+			}
+			return prim()
+		}
 		newVals := func(c int) ([]json.RawMessage, []int) {
 			var rs []json.RawMessage
 			var ts []int
@@ -127,6 +202,12 @@ func main() {
 				ts = append(ts, t)
 			}
 			return rs, ts
+		}
+		viewOf := func(v interface{}) interface{} {
+			if *kind == "doc" {
+				return encView(v)
+			}
+			return toTags(v)
 		}
 		fail := func(class, why string) {
 			viol = append(viol, Violation{Property: "C01", Kind: *kind, Class: class, Why: why, Steps: trace, Tool: "repdriver", Hash: fmt.Sprintf("rep-%s-%d-%d", *kind, *seed, r)})
@@ -158,6 +239,52 @@ func main() {
 						rs, ts := newVals(1)
 						call = spec.Call{Op: "put", K: k, V: rs[0]}
 						cj = ev{"op": "put", "k": k, "v": ts[0]}
+					}
+				case "doc":
+					var cs []cont
+					containers(ob.View, nil, &cs)
+					ct := cs[rng.Intn(len(cs))]
+					var path []json.RawMessage
+					for _, p := range ct.path {
+						path = append(path, raw(p))
+					}
+					if path == nil {
+						path = []json.RawMessage{}
+					}
+					switch {
+					case !ct.arr && len(ct.keys) > 0 && rng.Intn(4) == 0:
+						k := ct.keys[rng.Intn(len(ct.keys))]
+						call = spec.Call{Op: "rmv", Path: path, K: k}
+						cj = ev{"op": "rmv", "path": ct.path, "k": k}
+					case !ct.arr:
+						k := []string{"x", "y"}[rng.Intn(2)]
+						v := docVal(0)
+						call = spec.Call{Op: "put", Path: path, K: k, V: raw(v)}
+						cj = ev{"op": "put", "path": ct.path, "k": k, "v": v}
+					case ct.n > 0 && rng.Intn(4) == 0:
+						cnt := 1 + rng.Intn(min(ct.n, 2))
+						pos := rng.Intn(ct.n - cnt + 1)
+						call = spec.Call{Op: "del", Path: path, Pos: pos, N: cnt}
+						cj = ev{"op": "del", "path": ct.path, "pos": pos, "n": cnt}
+					case ct.n > 0 && rng.Intn(3) == 0:
+						pos := rng.Intn(ct.n)
+						v := docVal(1)
+						call = spec.Call{Op: "upd", Path: path, Pos: pos, Vals: []json.RawMessage{raw(v)}}
+						cj = ev{"op": "upd", "path": ct.path, "pos": pos, "vals": []interface{}{v}}
+					default:
+						cnt := 1 + rng.Intn(2)
+						var vs []interface{}
+						var rs []json.RawMessage
+						for j := 0; j < cnt; j++ {
+							v := docVal(1)
+							vs, rs = append(vs, v), append(rs, raw(v))
+						}
+						pos := rng.Intn(ct.n + 1)
+						call = spec.Call{Op: "ins", Path: path, Pos: pos, Vals: rs}
+						cj = ev{"op": "ins", "path": ct.path, "pos": pos, "vals": vs}
+					}
+					if cj["path"] == nil || len(ct.path) == 0 {
+						cj["path"] = []string{}
 					}
 				case "list":
 					sz := ob.Size
@@ -191,8 +318,8 @@ func main() {
 					break
 				}
 				o := rep.Observe()
-				trace = append(trace, ev{"event": "local", "r": c, "call": cj, "view": toTags(o.View), "size": o.Size, "opid": []uint64{o.NextL, o.NextS}})
-			case x == 5 && *txs: // a user transaction of 1-3 calls, committed or aborted
+				trace = append(trace, ev{"event": "local", "r": c, "call": cj, "view": viewOf(o.View), "size": o.Size, "opid": []uint64{o.NextL, o.NextS}})
+			case x == 5 && *txs && *kind != "doc": // a user transaction of 1-3 calls, committed or aborted
 				ob := rep.Observe()
 				sz := ob.Size
 				live := map[string]bool{}
@@ -268,7 +395,7 @@ func main() {
 					break
 				}
 				o := rep.Observe()
-				trace = append(trace, ev{"event": "deliver", "r": c, "n": k, "view": toTags(o.View), "size": o.Size, "opid": []uint64{o.NextL, o.NextS}})
+				trace = append(trace, ev{"event": "deliver", "r": c, "n": k, "view": viewOf(o.View), "size": o.Size, "opid": []uint64{o.NextL, o.NextS}})
 			}
 		}
 		trace = append(trace, ev{"event": "reset"})
